@@ -20,7 +20,8 @@ Open Scope Z_scope.
 Inductive lm := FORK | SSH | RSH | MPIRUN | MPIEXEC | SRUN | APRUN | CCMRUN
               | IBRUN | JSRUN | PRTE.
 Inductive flavor := OMPI | HYDRA | SPECTRUM | PALS | UNKNOWN.
-Inductive err := EValue | ERuntime | EAssert | ECrash.
+(* EOs: OSError while writing the host / rank / node / ERF file *)
+Inductive err := EValue | ERuntime | EAssert | EOs | ECrash.
 
 (* new-style slot: one per rank *)
 Record slot := { s_node : Z; s_nidx : Z; s_cores : list Z; s_gpus : list Z }.
@@ -38,7 +39,8 @@ Record task := {
   t_mem   : Z;              (* description.mem_per_rank *)
   t_skipgpu : bool;         (* description.metadata.lm_skip_gpus *)
   t_omp   : bool;           (* threading_type == OpenMP *)
-  t_cuda  : bool            (* gpu_type == CUDA *)
+  t_cuda  : bool;           (* gpu_type == CUDA *)
+  t_wfail : bool            (* fault injection: files cannot be written into the task sandbox *)
 }.
 
 Record cfg := {
@@ -80,7 +82,8 @@ Inductive fcontent :=
 | FRank  (l : list (Z * Z * list Z))             (* rank i=h slots=c,.. *)
 | FErf   (l : list (list Z * Z * list (list Z) * list Z))
                                                  (* rank: ids : { host: i; cpu: {..},..; gpu: {..} } *)
-| FNodes (l : list Z).                           (* h,h,h on one line *)
+| FNodes (l : list Z)                            (* h,h,h on one line *)
+| FMissing.                                      (* observation only: the named file does not exist *)
 
 Record command := { argv : list arg; file : option fcontent }.
 
@@ -171,6 +174,8 @@ Definition cmd_mpirun (c : cfg) (st : lm_state) (t : task) : lm_state * outcome 
     let big   := MIN_NNODES_IN_LIST <? zlen hosts in
     let np    := if c_mpt c then 1 else zlen hosts in
     let gpu   := negb (t_gpr t =? 0) && match c_flavor c with SPECTRUM => true | _ => false end in
+    if big && t_wfail t then (st, inl EOs)             (* ru.create_hostfile raises: the task is refused *)
+    else
     (st,
      inr {| argv := opt (c_ccmrun c) [A "ccmrun"] ++ [A "mpirun"]
                     ++ opt (negb big && c_mpt c) [OH O_pos hosts]
@@ -194,6 +199,8 @@ Definition cmd_mpiexec (c : cfg) (t : task) : outcome :=
   match t_slots t with
   | [] => inl EAssert
   | _ =>
+    if t_wfail t then inl EOs                          (* every branch writes its file first *)
+    else
     let counts := host_counts (hosts_of t) in
     let np := zsum (map snd counts) in
     let tail := opt (negb (c_rf c) && negb (c_hf c) && c_oversub c && c_can_os c) [F O_oversub]
@@ -245,6 +252,7 @@ Definition cmd_srun (c : cfg) (t : task) : outcome :=
   let gpus := if negb (t_skipgpu t) && c_reqgpus c && negb (gpt =? 0)
               then (if c_traverse c then [OZ O_gpt gpt]
                     else [OZ O_gpt gpt; A "--gpu-bind"; A "closest"]) else [] in
+  if nodefile && t_wfail t then inl EOs else
   inr {| argv := [A "srun"; A "--export=ALL"] ++ kill ++ opt (c_exact c) [F O_exact]
                  ++ map_ ++ opt (1 <? c_tpc c) [OZ O_tpc (c_tpc c)]
                  ++ [OZ O_mem (t_mem t)] ++ gpus
@@ -337,6 +345,7 @@ Definition cmd_jsrun (c : cfg) (t : task) : outcome :=
                 then (if 1 <? t_ranks t then [F O_smpigpu] else [F O_smpioff]) else [] in
     if c_erf c then
       if negb (forallb gpus_ok (t_rs t)) then inl EAssert
+      else if t_wfail t then inl EOs
       else inr {| argv := [A "jsrun"; OF O_erf Xrs] ++ smpi ++ [EXEC];
                   file := Some (FErf (erf_lines 0 (t_rs t))) |}
     else
@@ -372,6 +381,19 @@ Definition cmd_jsrun (c : cfg) (t : task) : outcome :=
                  file := None |}
         end
       end
+  end.
+
+(* does the method write a host / rank / node / ERF file for this task? *)
+Definition writes_file (c : cfg) (t : task) : bool :=
+  match c_lm c with
+  | MPIRUN => MIN_NNODES_IN_LIST <? zlen (hosts_of t)
+  | MPIEXEC => true
+  | SRUN => match t_slots t with
+            | [] => false
+            | _ => (MIN_VSLURM_IN_LIST <? c_vmajor c)
+                   && (MIN_NNODES_IN_LIST <? zlen (nodeset (hosts_of t))) end
+  | JSRUN => c_erf c
+  | _ => false
   end.
 
 Definition get_launch_cmds (c : cfg) (st : lm_state) (t : task) : lm_state * outcome :=
@@ -517,14 +539,30 @@ Definition den (c : cfg) (cmd : command) : option placement :=
       match getZ O_np a with
       | None => None
       | Some np =>
+        (* Open MPI / Hydra: -host list or -hostfile; SGI MPT: positional host
+           list or -file.  The options of the other flavour are not understood
+           by this mpirun: such a command has no denotation. *)
         let hosts :=
-          match getH O_host a, getH O_pos a, file cmd with
-          | Some l, _, _ => Some l
-          | None, Some l, _ => Some l
-          | None, None, Some (FHosts l) =>
-              if hasOF O_hostfile a || hasOF O_file a then Some l else None
-          | _, _, _ => None
-          end in
+          if c_mpt c then
+            match getH O_host a, hasOF O_hostfile a with
+            | None, false =>
+                match getH O_pos a, file cmd with
+                | Some l, _ => Some l
+                | None, Some (FHosts l) => if hasOF O_file a then Some l else None
+                | _, _ => None
+                end
+            | _, _ => None
+            end
+          else
+            match getH O_pos a, hasOF O_file a with
+            | None, false =>
+                match getH O_host a, file cmd with
+                | Some l, _ => Some l
+                | None, Some (FHosts l) => if hasOF O_hostfile a then Some l else None
+                | _, _ => None
+                end
+            | _, _ => None
+            end in
         match hosts with
         | None => None
         | Some l =>
